@@ -402,3 +402,54 @@ PROPS["C08"]["level_text"] += (" The S2M client layer is proved fail-closed (Val
                                "running the real S2mClient against a scripted peer.")
 PROPS["C09"]["level_text"] += (" The S2M client layer is proved fail-closed (Success only from S2M_AUTH_ACK succeeded=true with a username, then that username) "
                                "and tied by running the real S2mClient against a scripted peer.")
+
+
+# D21 replay: a peer that stops reading stalls the connection's writer inside `write_all_vectored`; the loop then never polls its
+# close / shutdown arms (known finding, see known_findings.txt)
+KF_STALL_SCRIPT = "open;connect 1 1000;auth 1 ok;stall 1;req 1;req 1;req 1;req 1;req 1;req 1;adv 10;shutdown;adv 5000"
+PROPS["C20"] = {
+    "theorems": ["Narwhal.Theorems.C20"],
+    "audit_files": ["Narwhal/Model/Timers.lean"],
+    "expect_theorems": ["Narwhal.Timers.timers_table_ok", "Narwhal.Timers.clampC2s_spec", "Narwhal.Timers.clampS2m_spec",
+                        "Narwhal.Timers.clampM2s_spec", "Narwhal.Timers.C20_clamp", "Narwhal.Timers.shape_step", "Narwhal.Timers.outInv_step",
+                        "Narwhal.Timers.C20_connect_deadline", "Narwhal.Timers.C20_auth_deadline", "Narwhal.Timers.C20_announced_is_clamped",
+                        "Narwhal.Timers.C20_ping_only_when_silent", "Narwhal.Timers.C20_silent_is_pinged", "Narwhal.Timers.C20_pong_in_time",
+                        "Narwhal.Timers.C20_pong_wrong_id", "Narwhal.Timers.C20_no_pong_times_out",
+                        "Narwhal.Timers.C20_ping_timeout_only_unanswered", "Narwhal.Timers.C20_unsolicited_pong_parked",
+                        "Narwhal.Timers.C20_second_unsolicited_pong_closes", "Narwhal.Timers.C20_active_not_pinged",
+                        "Narwhal.Timers.C20_shutdown_closes", "Narwhal.Timers.C20_shutdown_all", "Narwhal.Timers.C20_closed_is_final",
+                        "Narwhal.Timers.C20_auth_retry_keeps_deadline"],
+    "suites": {"timers": {"kind": "lines", "nvh_suite": "timers", "driver_suite": "timers", "op_prefixes": ["t "],
+                          "cases": {"quick": 400, "thorough": 8000}, "oracle_tags": ["C20"]},
+               "kf_stall": {"kind": "oracle", "nvh_suite": "timers", "cases": {"quick": 1, "thorough": 1},
+                            "args": {"script": KF_STALL_SCRIPT, "ka": 1000, "pipe": 64}, "oracle_tags": ["C20"]}},
+    "rule": "per case one link type (C2S with IDENTIFY or modulator AUTH, S2M, M2S), a configuration (connect / authenticate timeouts 15..600 ms, "
+            "keep-alive maximum 10..100 ms, minimum 1..max) and 1-4 real connections driven through ConnManager::run_connection under virtual time at "
+            "1 ms resolution: CONNECT with requested heartbeats {0, 1, min-1, min, min+1, mid, max-1, max, max+1, 100000, u32::MAX}, completed / refused / "
+            "partial authentication, requests, PONGs (matching, stale, unknown id, unsolicited, duplicated), client closes, time steps aimed at every "
+            "deadline -1/0/+1 ms, shutdown at a random moment; scenarios random / silent / active / shutdown; every frame is compared with its time "
+            "stamp; distinct = distinct observation strings",
+    "trusted_base": ["modelled, not verified: Conn::{dispatch_message (state transitions, re-arming), schedule_timeout, run_ping_loop}, the close / shutdown "
+                     "arms of run_connection_loop, ConnManager::shutdown (common/src/conn.rs); the heartbeat negotiation of the three CONNECT handlers is "
+                     "translated from the source (syn) on every run, as are the PING timeout factor and the shape of the re-arming code",
+                     "tokio's timer wheel, select! (which of two simultaneously ready arms runs first is random: a PING in the same instant as the closing "
+                     "BAD_REQUEST is dropped from the comparison), TaskTracker, CancellationToken"],
+    "level_text": "Proved in Lean for every configuration with positive timeouts and min <= max, every requested heartbeat, every event list (any "
+                  "timing of CONNECT, authentication attempts, requests and PONGs relative to the expiries) and every state at shutdown: an unconnected / "
+                  "unauthenticated connection is never open at its deadline and a deadline TIMEOUT is written only at exactly that instant and only to a "
+                  "connection that did not complete the phase (failed attempts do not move it); the announced interval is the requested one clamped "
+                  "(0 = the maximum), for the three CONNECT handlers as regenerated from the source; a PING is written only when the last activity is a "
+                  "whole interval old, and from any sleeping state one is written within two intervals of the last activity; a matching PONG within three "
+                  "intervals keeps the connection open, another id closes it with BAD_REQUEST, none closes it with TIMEOUT exactly three intervals "
+                  "after the PING, and a keep-alive TIMEOUT is only ever written that way; a connection whose last request is always less than one "
+                  "interval old is never pinged or closed; shutdown writes SERVER_SHUTTING_DOWN to and closes a connection in every state, and "
+                  "afterwards every connection is closed. Tied by the timers suite (real engine, all three link types, millisecond-exact comparison) and an "
+                  "independent oracle that evaluates the property on the clients' observations.",
+    "level_note": "Partial: a connection whose writer is blocked inside a socket write (peer stopped reading, buffer full) is outside the model; on the "
+                  "real code it never observes shutdown (known finding shutdown-blocked-by-stalled-writer, replayed on every run). Repaired while building "
+                  "this check: shutdown neither waited for nor reliably notified connections (4078404); a second unsolicited PONG stalled the "
+                  "connection loop until the next PING (57ff38e); PING id 0 (31863f4).",
+    "assumptions": ["positive timeouts, 0 < min_keep_alive <= keep_alive_interval, intervals below 2^32 ms",
+                    "the transport accepts what the connection writes (stalled writers: known finding)",
+                    "an event at the same instant as an expiry is handled after it"],
+}
